@@ -191,10 +191,16 @@ func probeCConv(f []string) string {
 	} else {
 		c = smtp.NewClient(p)
 	}
+	return strings.Join(runCalls(c, f[3], p.take), "|")
+}
+
+// runCalls interprets a call script against a client; take() returns the octets written since the last call.
+func runCalls(c *smtp.Client, script string, take func() []byte) []string {
 	var out []string
 	var wc io.WriteCloser
+	var writers []io.WriteCloser
 	var cbs []string
-	for _, call := range strings.Split(f[3], ";") {
+	for _, call := range strings.Split(script, ";") {
 		a := strings.Split(call, "/")
 		res, extra := "", ""
 		switch a[0] {
@@ -219,6 +225,7 @@ func probeCConv(f []string) string {
 			w, err := c.Data()
 			if err == nil {
 				wc = w
+				writers = append(writers, w)
 			}
 			res = errString(err)
 		case "lmtpdata":
@@ -232,6 +239,7 @@ func probeCConv(f []string) string {
 			})
 			if err == nil {
 				wc = w
+				writers = append(writers, w)
 			}
 			res = errString(err)
 		case "write":
@@ -242,11 +250,19 @@ func probeCConv(f []string) string {
 				res = errString(err)
 			}
 		case "close":
-			if wc == nil {
+			w := wc
+			if len(a) > 1 { // close/K: the K-th writer obtained so far (stale handles included)
+				if k := atoi(a[1]); k < len(writers) {
+					w = writers[k]
+				} else {
+					w = nil
+				}
+			}
+			if w == nil {
 				res = "nowriter"
 			} else {
 				cbs = nil
-				res = errString(wc.Close())
+				res = errString(w.Close())
 				extra = strings.Join(cbs, "+")
 			}
 		case "auth":
@@ -266,7 +282,7 @@ func probeCConv(f []string) string {
 		w := "-"
 		if a[0] != "write" {
 			// what a Write call puts on the wire depends on bufio's flushing; it is accounted to the next call
-			w = hx(p.take())
+			w = hx(take())
 		}
 		item := w + "/" + strings.ReplaceAll(res, "/", "~")
 		if extra != "" {
@@ -274,7 +290,7 @@ func probeCConv(f []string) string {
 		}
 		out = append(out, item)
 	}
-	return strings.Join(out, "|")
+	return out
 }
 
 func init() { probes["cconv"] = probeCConv }
